@@ -155,7 +155,8 @@ type feat struct {
 	tail     string // data beyond the record of the last complete index entry: none, whole-records, partial-record, whole+partial
 	unalign  bool   // data file length not a multiple of 8
 	j, jdat  int
-	nextKind string // kind of the first record that is not indexed (if any)
+	ahead    bool   // the index holds an entry whose data record is not completely in the data file
+	cut      string // for ahead: which record the data file ends in, and where in it
 }
 
 func opKind(o Op) string {
@@ -179,6 +180,19 @@ func features(h []Op, lv *live, L, M int) feat {
 	if f.j > 0 {
 		f.lastIdx = opKind(h[f.j-1])
 	}
+	if need := (M + 15) / 16; f.jdat < need {
+		// index ahead of data: the record of index entry `need` (complete or torn) is not completely in the data file
+		f.ahead = true
+		rec := f.j // the last COMPLETE index entry decides what recovery looks at
+		if rec == 0 {
+			rec = 1
+		}
+		which := "last"
+		if L < lv.datLen[rec-1] {
+			which, rec = "second-to-last", rec-1
+		}
+		f.cut = which + "/" + cutPlace(lv, rec, L)
+	}
 	whole := f.jdat > f.j
 	partial := L > lv.datLen[f.jdat]
 	switch {
@@ -194,10 +208,40 @@ func features(h []Op, lv *live, L, M int) feat {
 	return f
 }
 
+// cutPlace says where inside record rec (1-based) the data file ends.
+func cutPlace(lv *live, rec, L int) string {
+	start := lv.datLen[rec-1]
+	o := L - start
+	if o < 0 {
+		return "before-record"
+	}
+	size := int(int32(uint32(lv.dat[start+12])<<24 | uint32(lv.dat[start+13])<<16 | uint32(lv.dat[start+14])<<8 | uint32(lv.dat[start+15])))
+	switch {
+	case o == 0:
+		return "record-missing"
+	case o < 16:
+		return "in-header"
+	case o < 16+size || (o == 16 && size > 0):
+		return "in-body"
+	case o < 16+size+4:
+		return "in-checksum" // includes "right after the header" of a size-0 record
+	case o < 16+size+12:
+		return "in-timestamp"
+	}
+	return "in-padding"
+}
+
 func (f feat) String() string {
 	if f.torn {
 		// a torn entry is what recovery meets first; nothing else about the image matters to it
 		return "idx=torn"
+	}
+	if f.ahead && f.lastIdx == "delete" {
+		// recovery checks a tombstone entry against the END of the data file, wherever that is
+		return "idx-ahead:last=delete"
+	}
+	if f.ahead {
+		return fmt.Sprintf("idx-ahead:last=%s:dat-cut=%s", f.lastIdx, f.cut)
 	}
 	return fmt.Sprintf("idx=whole:last=%s:tail=%s", f.lastIdx, f.tail)
 }
@@ -244,15 +288,26 @@ func checkImage(e *volkit.Env, h []Op, lv *live, L, M int) (outcome string, vs [
 		got := readStr(e, vid, k)
 		before[k] = got
 		ok := false
-		for jj := f.j; jj <= f.jdat; jj++ {
+		lo := f.j
+		if f.jdat < lo {
+			lo = f.jdat // operations lo+1..j have an index entry but no complete record
+		}
+		for jj := lo; jj <= f.jdat; jj++ {
 			if lv.reads[jj][k] == got {
 				ok = true
 			}
 		}
+		if !ok && f.ahead && aheadAllowed(h, lv, k, lo, (M+15)/16, got) {
+			ok = true
+		}
 		if ok {
 			continue
 		}
-		want := lv.reads[f.j][k]
+		want := lv.reads[lo][k]
+		if f.ahead && strings.HasPrefix(got, "=") && foreign(h, lv, k, got) {
+			add("foreign-data-after-recovery", fmt.Sprintf("key %d reads %q, which is data written under another key", k, got))
+			continue
+		}
 		// name the deviation by what the key should have been and what came out
 		sym := "wrong-content"
 		switch {
@@ -265,11 +320,14 @@ func checkImage(e *volkit.Env, h []Op, lv *live, L, M int) (outcome string, vs [
 		case strings.HasPrefix(want, "!"):
 			sym = "deleted-or-absent-key-readable"
 		}
-		add(sym, fmt.Sprintf("key %d reads %q; allowed: states %d..%d = %v", k, got, f.j, f.jdat, allowed(lv, k, f.j, f.jdat)))
+		add(sym, fmt.Sprintf("key %d reads %q; allowed: states %d..%d = %v", k, got, lo, f.jdat, allowed(lv, k, lo, f.jdat)))
 	}
 	ro := v.IsReadOnly()
 	if ro {
 		add("volume-read-only-after-recovery", "the reopened volume refuses writes (IsReadOnly)")
+	}
+	if f.ahead {
+		aheadWrites(e, vid, h, lv, f, M, ro, before, add)
 	}
 	// a new key, then an overwrite of key 1, are accepted and served
 	newData := []byte("after-crash-new")
@@ -297,6 +355,9 @@ func checkImage(e *volkit.Env, h []Op, lv *live, L, M int) (outcome string, vs [
 			continue
 		}
 		if got := readStr(e, vid, k); got != before[k] {
+			if lo := minInt(f.j, f.jdat); f.ahead && (aheadAllowed(h, lv, k, lo, (M+15)/16, got) || got == lv.reads[lo][k]) {
+				continue // an index-ahead key may move between error and its own exact content
+			}
 			add("new-write-changes-other-key", fmt.Sprintf("key %d read %q before and %q after the new writes", k, before[k], got))
 		}
 	}
@@ -336,6 +397,97 @@ func loadRecovering(e *volkit.Env, vid needle.VolumeId) (err error, panicked str
 		}
 	}()
 	return e.Load(vid), ""
+}
+
+// aheadAllowed: key k is worked on by an operation lo+1..hi whose index entry
+// survived while its record did not.  The statement asks for an error / not
+// found / the previous fully written version (handled by the caller); the exact
+// content that operation was writing is accepted too (every byte that matters
+// of the record may be there, e.g. only padding is missing) - it is neither
+// corrupted nor foreign.
+func aheadAllowed(h []Op, lv *live, k uint64, lo, hi int, got string) bool {
+	if !touched(h, k, lo, hi) {
+		return false
+	}
+	if strings.HasPrefix(got, "!") {
+		return true
+	}
+	for jj := lo + 1; jj <= hi && jj < len(lv.reads); jj++ {
+		if h[jj-1].Key == k && lv.reads[jj][k] == got {
+			return true
+		}
+	}
+	return false
+}
+
+func minInt(a, b int) int {
+	if a < b {
+		return a
+	}
+	return b
+}
+
+// touched: some operation lo+1..hi works on key k.
+func touched(h []Op, k uint64, lo, hi int) bool {
+	for i := lo; i < hi && i < len(h); i++ {
+		if h[i].Key == k {
+			return true
+		}
+	}
+	return false
+}
+
+// foreign: got is the data some operation wrote under a key other than k.
+func foreign(h []Op, lv *live, k uint64, got string) bool {
+	for i, o := range h {
+		if o.Kind == "W" && o.Key != k && "="+string(data(o, i)) == got && len(data(o, i)) > 0 {
+			return true
+		}
+	}
+	return strings.HasPrefix(got, "=after-crash") || strings.HasPrefix(got, "=NEW")
+}
+
+// aheadWrites: after recovery of an index-ahead image a new key whose record has
+// the SAME length as the torn record, and one with another length, are written;
+// then EVERY key is read again.  A stale index entry that points at the new end
+// of the data file would now serve the new blob under the old key.
+func aheadWrites(e *volkit.Env, vid needle.VolumeId, h []Op, lv *live, f feat, M int, ro bool,
+	before map[uint64]string, add func(class, msg string)) {
+	torn := h[(M+15)/16-1] // the operation whose record is incomplete
+	same := make([]byte, len(data(torn, 0)))
+	for i := range same {
+		same[i] = "NEW3-same-size-as-torn-record"[i%29]
+	}
+	blobs := map[uint64]volkit.Blob{
+		3: {Data: same, Name: "f", Mime: "a/b"}, // same name/mime lengths as the history's writes: same record length
+		4: {Data: []byte("NEW4-other-size"), Name: "other", Mime: "text/plain"},
+	}
+	for _, k := range []uint64{3, 4} {
+		if _, err := e.Write(vid, k, cookie, blobs[k]); err != nil {
+			if !ro {
+				add("new-write-rejected", fmt.Sprintf("write of new key %d: %v", k, volkit.ErrClass(err)))
+			}
+			continue
+		}
+		if got := readStr(e, vid, k); got != "="+string(blobs[k].Data) {
+			add("new-write-not-served", fmt.Sprintf("new key %d reads %q", k, got))
+		}
+	}
+	for _, k := range keys {
+		got := readStr(e, vid, k)
+		lo := f.jdat
+		if f.j < lo {
+			lo = f.j
+		}
+		if got == before[k] || aheadAllowed(h, lv, k, lo, (M+15)/16, got) || got == lv.reads[lo][k] {
+			continue
+		}
+		if strings.HasPrefix(got, "=NEW") {
+			add("foreign-data-after-recovery", fmt.Sprintf("key %d read %q before and serves the new blob %q after new keys were written", k, before[k], got))
+		} else {
+			add("new-write-changes-other-key", fmt.Sprintf("key %d read %q before and %q after new keys were written", k, before[k], got))
+		}
+	}
 }
 
 func allowed(lv *live, k uint64, j, jdat int) []string {
@@ -388,6 +540,25 @@ func watchdog(c Case) *time.Timer {
 		fmt.Fprintf(os.Stderr, "WATCHDOG: case %s still running after 60s\n%s\n", mc.JS(c), buf[:n])
 		os.Exit(3)
 	})
+}
+
+// imagesAhead calls f for every image of the history in which the index is
+// AHEAD of the data (the two files are persisted independently): the index
+// holds all n entries (or the last one torn after 8 bytes) while the data file
+// ends anywhere inside the last record - before its first byte, in the header,
+// the body, the checksum, the timestamp, the padding - or inside the
+// second-to-last record with the last one missing entirely.  Shorter indexes
+// are the images of the shorter history.
+func imagesAhead(h []Op, lv *live, f func(L, M int)) {
+	n := len(h)
+	from := 8
+	if n >= 2 {
+		from = lv.datLen[n-2]
+	}
+	for L := from; L < lv.datLen[n]; L++ {
+		f(L, 16*n)
+		f(L, 16*(n-1)+8) // last entry torn: the entry before it (if any) is the last complete one
+	}
 }
 
 func crashClass(caseJSON, tail string) (string, string) {
@@ -455,7 +626,7 @@ func run(r *mc.Run) {
 				return
 			}
 			r.Add("histories", 1)
-			images(h, lv, len(h) <= allBytesUpTo, func(L, M int) {
+			one := func(L, M int) {
 				f := features(h, lv, L, M)
 				c := Case{History: h, L: L, M: M, Feat: f.String()}
 				if !r.Begin(c) {
@@ -484,6 +655,11 @@ func run(r *mc.Run) {
 						return false
 					})
 				}
+			}
+			images(h, lv, len(h) <= allBytesUpTo, one)
+			imagesAhead(h, lv, func(L, M int) {
+				r.Add("images_index_ahead_of_data", 1)
+				one(L, M)
 			})
 		})
 	}, crashClass)
